@@ -103,7 +103,7 @@ def run(tier, seed, work):
     rep = vlib.Report("C07", tier, seed)
     jobs = build_jobs(tier, seed)
     vlib.run_jobs(jobs, work)
-    rep.absorb(jobs)
+    rep.absorb(jobs, replay_cb=vlib.ops_replay_cb("exsmoother"))
     rep.extraction = {"rules_fired": jobs[0].rules.summary(), "body_sha256_16": jobs[-1].hashes,
                       "dropped": ["#pragma omp", "per-thread solver scratch Vector declarations", "MUMPS branches (build has GMGPOLAR_USE_MUMPS off)",
                                   "allocation part of buildAscMatrices (performed by the harness, text checked)"]}
